@@ -210,7 +210,7 @@ fn restarts(out: &mut Out, rng: &mut Rng, k: u64, nrestarts: usize, ninst: usize
 
 pub fn run_c10(ctx: &Ctx, out: &mut Out) {
     let mut rng = ctx.rng("C10");
-    crate::inproc::install_logger(log::LevelFilter::Warn, false);
+    crate::inproc::install_shard_logger(ctx.shard, out);
     if let Some(r) = &ctx.replay {
         out.case(1, true);
         out.case(2, true);
@@ -556,7 +556,7 @@ fn clock_steps(ctx: &Ctx, out: &mut Out, rng: &mut Rng) {
 
 pub fn run_c11(ctx: &Ctx, out: &mut Out) {
     let mut rng = ctx.rng("C11");
-    crate::inproc::install_logger(log::LevelFilter::Warn, false);
+    crate::inproc::install_shard_logger(ctx.shard, out);
     let mut key = OnlineKey::new();
     if let Some(r) = &ctx.replay {
         out.case(1, true);
